@@ -195,6 +195,7 @@ impl<'a, F: Float, K: 'a + Permutable<F>> SolverState<'a, F, K> {
         self.active_set.swap(i, j);
         self.kernel.swap_indices(i, j);
         self.targets.swap(i, j);
+        self.bounds.swap(i, j);
     }
 
     /// Reconstruct gradients from inactivate variables
@@ -219,7 +220,7 @@ impl<'a, F: Float, K: 'a + Permutable<F>> SolverState<'a, F, K> {
             for i in self.nactive()..self.ntotal() {
                 let dist_i = self.kernel.distances(i, self.nactive());
                 for j in 0..self.nactive() {
-                    if self.alpha[i].free_floating() {
+                    if self.alpha[j].free_floating() {
                         self.gradient[i] += self.alpha[j].val() * dist_i[j];
                     }
                 }
@@ -249,6 +250,10 @@ impl<'a, F: Float, K: 'a + Permutable<F>> SolverState<'a, F, K> {
 
         let old_alpha_i = self.alpha[i].val();
         let old_alpha_j = self.alpha[j].val();
+
+        // status before the update, needed to keep `gradient_fixed` in sync
+        let ui = self.alpha[i].reached_upper();
+        let uj = self.alpha[j].reached_upper();
 
         if self.targets[i] != self.targets[j] {
             let mut quad_coef = self.kernel.self_distance(i)
@@ -341,9 +346,6 @@ impl<'a, F: Float, K: 'a + Permutable<F>> SolverState<'a, F, K> {
         }
 
         // update alpha status and gradient bar
-        let ui = self.alpha[i].reached_upper();
-        let uj = self.alpha[j].reached_upper();
-
         self.alpha[i] = Alpha::from(self.alpha[i].val(), self.bound(i));
         self.alpha[j] = Alpha::from(self.alpha[j].val(), self.bound(j));
 
@@ -367,11 +369,11 @@ impl<'a, F: Float, K: 'a + Permutable<F>> SolverState<'a, F, K> {
             let dist_j = self.kernel.distances(j, self.ntotal());
             let bound_j = self.bound(j);
             if uj {
-                for k in 0..self.nactive() {
+                for k in 0..self.ntotal() {
                     self.gradient_fixed[k] -= bound_j * dist_j[k];
                 }
             } else {
-                for k in 0..self.nactive() {
+                for k in 0..self.ntotal() {
                     self.gradient_fixed[k] += bound_j * dist_j[k];
                 }
             }
@@ -650,7 +652,8 @@ impl<'a, F: Float, K: 'a + Permutable<F>> SolverState<'a, F, K> {
         }
 
         // swap items until working set is homogeneous
-        for i in 0..self.nactive() {
+        let mut i = 0;
+        while i < self.nactive() {
             if self.should_shrunk(i, gmax1, gmax2) {
                 self.nactive -= 1;
                 // only consider items behing this one
@@ -662,6 +665,7 @@ impl<'a, F: Float, K: 'a + Permutable<F>> SolverState<'a, F, K> {
                     self.nactive -= 1;
                 }
             }
+            i += 1;
         }
     }
 
@@ -678,7 +682,8 @@ impl<'a, F: Float, K: 'a + Permutable<F>> SolverState<'a, F, K> {
         }
 
         // swap items until working set is homogeneous
-        for i in 0..self.nactive() {
+        let mut i = 0;
+        while i < self.nactive() {
             if self.should_shrunk_nu(i, gmax1, gmax2, gmax3, gmax4) {
                 self.nactive -= 1;
                 // only consider items behing this one
@@ -690,6 +695,7 @@ impl<'a, F: Float, K: 'a + Permutable<F>> SolverState<'a, F, K> {
                     self.nactive -= 1;
                 }
             }
+            i += 1;
         }
     }
 
@@ -800,6 +806,8 @@ impl<'a, F: Float, K: 'a + Permutable<F>> SolverState<'a, F, K> {
             let (mut i, mut j, is_optimal) = self.select_working_set();
             if is_optimal {
                 self.reconstruct_gradient();
+                // reset active set size and check again on all variables
+                self.nactive = self.ntotal();
                 let (i2, j2, is_optimal) = self.select_working_set();
                 if is_optimal {
                     break;
@@ -843,9 +851,13 @@ impl<'a, F: Float, K: 'a + Permutable<F>> SolverState<'a, F, K> {
         };
 
         // put back the solution
-        let mut alpha: Vec<F> = (0..self.ntotal())
-            .map(|i| self.alpha[self.active_set[i]].val())
-            .collect();
+        // position `i` of the solver state holds the variable `active_set[i]` of the problem
+        let mut alpha = vec![F::zero(); self.ntotal()];
+        let mut targets = vec![true; self.ntotal()];
+        for i in 0..self.ntotal() {
+            alpha[self.active_set[i]] = self.alpha[i].val();
+            targets[self.active_set[i]] = self.targets[i];
+        }
 
         // If we are solving a regresssion problem the number of alpha values
         // computed by the solver are 2*(#samples). The final weights of each sample
@@ -875,7 +887,8 @@ impl<'a, F: Float, K: 'a + Permutable<F>> SolverState<'a, F, K> {
             let mut tmp = Array1::zeros(self.dataset.len_of(Axis(1)));
 
             for (i, elm) in self.dataset.outer_iter().enumerate() {
-                tmp.scaled_add(self.target(i) * alpha[i], &elm);
+                let sign = if targets[i] { F::one() } else { -F::one() };
+                tmp.scaled_add(sign * alpha[i], &elm);
             }
 
             SeparatingHyperplane::Linear(tmp)
